@@ -150,6 +150,33 @@ def _twin(v):
     return None
 
 
+def _frame(back, pos, key, twin):
+    """'' when everything the request did not name is as the file had it (top-level keys K, Z and META.TYPE), else what differs"""
+    from octave_mcp.core.ast_nodes import Assignment
+    tops = {s.key: s.value for s in back.sections if isinstance(s, Assignment)}
+    want_tops = {"Z": 1}
+    if not (pos != "meta" and key == "K"):
+        if not (twin is not None and pos == "assign" and key != "K") or True:
+            want_tops["K"] = "x"
+    if twin is not None and pos == "assign" and key == "K":
+        want_tops.pop("K", None)
+    for k, w in want_tops.items():
+        if k not in tops:
+            return "%s lost" % k
+        if tops[k] != w or type(tops[k]) is not type(w):
+            return "%s changed to %r" % (k, tops[k])
+    extra = set(tops) - set(want_tops) - ({key} if pos != "meta" else set())
+    if extra:
+        return "unexpected keys %s" % sorted(extra)
+    meta = dict(back.meta or {})
+    if meta.get("TYPE") != "X":
+        return "META.TYPE changed to %r" % (meta.get("TYPE"),)
+    mextra = set(meta) - {"TYPE"} - ({key} if pos == "meta" else set())
+    if mextra:
+        return "unexpected META fields %s" % sorted(mextra)
+    return ""
+
+
 def _tool_route(case, v):
     global _tool, _tmpdir
     from octave_mcp.core.parser import parse
@@ -193,6 +220,11 @@ def _tool_route(case, v):
                     back = parse(f.read())
             except Exception as e:
                 out.append(_obs(pos, key, "tool", err=type(e).__name__))
+                continue
+            # the rest of the file is what it was (the tool instance is long-lived and has served other requests on this very text)
+            frame = _frame(back, pos, key, twin)
+            if frame:
+                out.append(_obs(pos, key, "tool", err="frame:" + frame))
                 continue
             for idx in ((0, 2) if pos == "list3" else (0,)):
                 try:
